@@ -64,6 +64,36 @@ fn enc(p: &G1Projective) -> Vec<u8> {
     GroupEncoding::to_bytes(p).as_ref().to_vec()
 }
 
+/// A non-trivial point of E(Fp) whose order divides the cofactor (so it is on the curve but not
+/// in the prime-order subgroup): [r]R for the first curve point R with small x outside G1.
+fn torsion_point() -> Option<G1Projective> {
+    static T: std::sync::OnceLock<Option<G1Projective>> = std::sync::OnceLock::new();
+    *T.get_or_init(|| {
+        let r = r_modulus();
+        for x in 1u8..=200 {
+            let mut repr = <G1Projective as GroupEncoding>::Repr::default();
+            let b = repr.as_mut();
+            let l = b.len();
+            b[l - 1] = x;
+            b[0] |= 0x80; // compressed
+            let p: Option<G1Projective> = G1Projective::from_bytes_unchecked(&repr).into();
+            let Some(p) = p else { continue };
+            // [r]p by double-and-add with the library's own addition (r is 0 as a scalar)
+            let mut acc = G1Projective::identity();
+            for i in (0..r.bits()).rev() {
+                acc = acc.double();
+                if r.bit(i) {
+                    acc += p;
+                }
+            }
+            if !bool::from(acc.is_identity()) {
+                return Some(acc);
+            }
+        }
+        None
+    })
+}
+
 /// Mutations of one proof element.
 fn element_mutants(kind: char, bytes: &[u8], rng: &mut ChaCha8Rng) -> Vec<(String, Vec<u8>)> {
     let mut out = vec![];
@@ -77,6 +107,11 @@ fn element_mutants(kind: char, bytes: &[u8], rng: &mut ChaCha8Rng) -> Vec<(Strin
                 out.push(("point-neg".into(), enc(&(-p))));
                 out.push(("point-identity".into(), enc(&G1Projective::identity())));
                 out.push(("point-random".into(), enc(&G1Projective::random(&mut *rng))));
+                // same subgroup component, different cofactor component: on the curve, outside
+                // the subgroup, invisible to the pairing — only the decoder can reject it
+                if let Some(t) = torsion_point() {
+                    out.push(("point+torsion".into(), enc(&(p + t))));
+                }
             }
             // x not on the curve: bump the low byte until decoding fails
             for d in 1..=40u8 {
@@ -149,6 +184,11 @@ fn byte_level_mutants(proof: &[u8], layout: &[(char, usize, usize)], thorough: b
         // truncation at the element boundary and in the middle of the element
         v.push(mk("truncate-boundary", format!("len {off}"), proof[..*off].to_vec()));
         v.push(mk("truncate-mid-element", format!("len {}", off + len / 2), proof[..off + len / 2].to_vec()));
+    }
+    for n in [1usize, 2, 3, 31] {
+        if proof.len() > n {
+            v.push(mk("truncate-tail", format!("{n} bytes"), proof[..proof.len() - n].to_vec()));
+        }
     }
     for n in [1usize, 2, 48] {
         let mut p = proof.to_vec();
@@ -435,6 +475,25 @@ fn relation_checks<R: Relation>(
     check("append-zero", catch_any(|| midnight_zk_stdlib::verify::<R, blake2b_simd::State>(&vp, &vk, &instance, None, &p2)), rep);
     let p3 = proof[..proof.len() - 1].to_vec();
     check("truncate-1", catch_any(|| midnight_zk_stdlib::verify::<R, blake2b_simd::State>(&vp, &vk, &instance, None, &p3)), rep);
+    // the same through the batch entry point
+    let pi_ok = R::format_instance(&instance).unwrap();
+    check(
+        "batch-append-zero",
+        catch_any(|| midnight_zk_stdlib::batch_verify::<blake2b_simd::State>(&vp, &[vk.clone()], &[pi_ok.clone()], &[p2.clone()])),
+        rep,
+    );
+    check(
+        "batch-truncate-1",
+        catch_any(|| midnight_zk_stdlib::batch_verify::<blake2b_simd::State>(&vp, &[vk.clone()], &[pi_ok.clone()], &[p3.clone()])),
+        rep,
+    );
+    let mut p4 = proof.clone();
+    p4.extend((0..48).map(|_| rng.gen::<u8>()));
+    check(
+        "batch-append-random-48",
+        catch_any(|| midnight_zk_stdlib::batch_verify::<blake2b_simd::State>(&vp, &[vk.clone()], &[pi_ok.clone()], &[p4.clone()])),
+        rep,
+    );
     // batch_verify with a public-input vector of the wrong length (nb_public_inputs pinned in the key)
     let pi = R::format_instance(&instance).unwrap();
     let mut pi_long = pi.clone();
@@ -456,6 +515,97 @@ fn relation_checks<R: Relation>(
         if honest.is_err() {
             rep.count("relation.batch-honest-rejected(reported by C15)");
         }
+    }
+}
+
+/// Element decoders must refuse a truncated element whatever the missing bytes are: elements whose
+/// trailing bytes are zero are truncated by 1..len-1 bytes.
+fn decoder_truncation<H>(hname: &str, rep: &mut Report, rng: &mut ChaCha8Rng)
+where
+    H: TranscriptHash,
+    G1Projective: Hashable<H>,
+    Fq: Hashable<H> + Sampleable<H>,
+{
+    // scalars with many trailing zero bytes in their encoding
+    for v in [Fq::ZERO, Fq::ONE, Fq::from(0x1234)] {
+        let bytes = <Fq as Hashable<H>>::to_bytes(&v);
+        for cut in 1..bytes.len() {
+            rep.eval();
+            rep.nontrivial(&(hname.to_string(), "dec-scalar", cut, bytes.clone()));
+            let mut buf: &[u8] = &bytes[..bytes.len() - cut];
+            if let Ok(Ok(_)) = catch_any(|| <Fq as Hashable<H>>::read(&mut buf)) {
+                rep.violation(
+                    &format!("C03/decoder/{hname}/scalar/accepts-truncated-element"),
+                    &format!("Hashable::read accepted a scalar encoding truncated by {cut} byte(s): a proof ending in it verifies after truncation"),
+                    json!({"hash": hname, "encoding": hx(&bytes), "cut": cut}),
+                );
+                break;
+            }
+        }
+    }
+    // a point whose encoding ends in a zero byte (grind), and the identity
+    let mut pts = vec![G1Projective::identity()];
+    for _ in 0..4000 {
+        let p = G1Projective::random(&mut *rng);
+        if *enc(&p).last().unwrap() == 0 {
+            pts.push(p);
+            break;
+        }
+    }
+    for p in pts {
+        let bytes = <G1Projective as Hashable<H>>::to_bytes(&p);
+        for cut in 1..bytes.len() {
+            if bytes[bytes.len() - cut..].iter().any(|b| *b != 0) {
+                break;
+            }
+            rep.eval();
+            rep.nontrivial(&(hname.to_string(), "dec-point", cut, bytes.clone()));
+            let mut buf: &[u8] = &bytes[..bytes.len() - cut];
+            if let Ok(Ok(_)) = catch_any(|| <G1Projective as Hashable<H>>::read(&mut buf)) {
+                rep.violation(
+                    &format!("C03/decoder/{hname}/point/accepts-truncated-element"),
+                    &format!("Hashable::read accepted a point encoding truncated by {cut} byte(s): a proof ending in it verifies after truncation"),
+                    json!({"hash": hname, "encoding": hx(&bytes), "cut": cut}),
+                );
+                break;
+            }
+        }
+    }
+}
+
+/// Proof-level version: grind honest proofs of one small circuit until the last byte is zero, then
+/// the proof with that byte removed must be rejected.
+fn grind_truncated_tail<H>(hname: &str, case: &FamCase, budget: usize, rep: &mut Report)
+where
+    H: TranscriptHash,
+    G1Projective: Hashable<H>,
+    Fq: Hashable<H> + Sampleable<H>,
+{
+    let Ok((vk, pk)) = keygen_family(&case.spec) else { return };
+    let found: Option<(FamCase, Vec<u8>)> = (0..budget as u64).into_par_iter().find_map_any(|i| {
+        let mut c = case.clone();
+        c.wseeds = vec![case.wseeds[0].wrapping_add(i * 7919)];
+        let proof = prove_family::<H>(&c, &pk).ok()?;
+        (*proof.last()? == 0).then_some((c, proof))
+    });
+    let Some((c, proof)) = found else {
+        rep.count(&format!("grind.{hname}.no_zero_tail_found"));
+        return;
+    };
+    let instances = instances_of(&c);
+    let (committed, plain) = split_for_verifier(&vk, &c, &instances);
+    if verify_family::<H>(&vk, c.spec.k, &committed, &plain, &proof).is_err() {
+        return;
+    }
+    rep.eval();
+    rep.nontrivial(&(hname.to_string(), "grind-tail"));
+    rep.count(&format!("grind.{hname}.zero_tail_proof_tested"));
+    if verify_family::<H>(&vk, c.spec.k, &committed, &plain, &proof[..proof.len() - 1]).is_ok() {
+        rep.violation(
+            "C03/family/truncate-tail/accepted",
+            &format!("a proof ({hname} transcript) whose last byte is zero is accepted after that byte is removed"),
+            json!({"case": c, "proof_hex": hx(&proof)}),
+        );
     }
 }
 
@@ -542,6 +692,20 @@ fn main() {
     );
     let panics: u64 = by_kind.values().map(|v| v.1).sum();
     rep.count_n("panicked_not_accepted(reported by C16)", panics);
+
+    // element decoders and zero-tail proofs
+    let mut drng = ctx.rng("c03-decoders");
+    decoder_truncation::<blake2b_simd::State>("blake2b", &mut rep, &mut drng);
+    decoder_truncation::<PState>("poseidon", &mut rep, &mut drng);
+    if let Some(small) = sources.iter().min_by_key(|c| c.spec.k) {
+        let mut c = small.clone();
+        c.np = 1;
+        c.nc = 0;
+        c.wseeds.truncate(1);
+        let budget = ctx.tier.pick(1500, 6000);
+        grind_truncated_tail::<blake2b_simd::State>("blake2b", &c, budget, &mut rep);
+        grind_truncated_tail::<PState>("poseidon", &c, budget, &mut rep);
+    }
 
     // stdlib relations through the façade
     let mut rrng = ctx.rng("c03-relations");
